@@ -330,7 +330,11 @@ FbFieldsOk(kind, b, v, base) ==
           \A f \in FciTypes :
              /\ ~IsPanic(v.fci[f])
              /\ IsOk(v.fci[f]) => (FciKind(f) = kind /\ FciFmtOf(f) = Count(b))   \* kind / format gating
-             /\ (FciKind(f) = kind /\ FciFmtOf(f) = Count(b) /\ RegularPad(b, 12)) =>
+             \* the FCI is what lies between the two SSRCs and the padding (RFC 3550: the last octet counts the octets
+             \* to ignore).  Every law is of the form "decoded => consistent with that region", so a padding count
+             \* that is not a multiple of 4 needs no exclusion: a parser may refuse such a packet's FCI, but what it
+             \* decodes must be the region's content.  Only a count that overlaps the fixed part is left open.
+             /\ (FciKind(f) = kind /\ FciFmtOf(f) = Count(b) /\ 12 + PadCount(b) <= Len(b)) =>
                    FciLaw(f, SubSeq(b, 13, Len(b) - PadCount(b)), v.fci[f], 12, base)
 
 \* ---- SDES (C10)
